@@ -19,7 +19,9 @@ RULE = ('Hypothesis arguments (generic / modal-heavy / quantifier-heavy profiles
         'at the default options, plus a permutation and a duplication of the premises. Oracle: no configuration raises; '
         'the set of non-limited outcome classes (valid / invalid with a limit-free open branch) over all runs of the '
         'argument has at most one element. Non-trivial = at least two non-limited outcomes and at least two distinct '
-        'step-history signatures in the grid; distinct by (logic, argument).')
+        'step-history signatures in the grid; distinct by (logic, argument). Plus a finite sub-domain enumerated completely: every 2- and '
+        '3-element set of literals from a pool (identity both ways round, self-identity, predications, a letter, and their negations) as '
+        'premises under every permutation, per logic (quick: triples for the classical family only) -- one verdict per set.')
 ASSUMPTIONS = ['outcomes produced only by step / world / constant limits are not verdicts and are excluded (counted)']
 MAX_STEPS = 200
 
@@ -28,6 +30,8 @@ PROFILES = {
     'modal-heavy': gen.Profile(w_atom=6, w_pred=1, w_neg=4, w_bin=4, w_modal=12, max_depth=3, natoms=2),
     'modal-deep': gen.Profile(w_atom=4, w_pred=0, w_neg=3, w_assert=0, w_bin=3, w_modal=14, w_quant=0, max_depth=5, natoms=2,
                               bin_ops=('Conjunction', 'Disjunction')),
+    'identity-heavy': gen.Profile(w_atom=1, w_pred=6, w_ident=9, w_neg=5, w_assert=0, w_bin=2, w_modal=1, w_quant=0, max_depth=2,
+                                  preds=((1, 0, 2), (0, 0, 1)), consts=(A.const(0), A.const(1), A.const(2))),
     'quant-heavy': gen.Profile(w_atom=2, w_pred=7, w_ident=1, w_neg=3, w_bin=5, w_modal=2, w_quant=8, max_depth=3,
                                consts=(A.const(1), A.const(0))),
 }
@@ -138,20 +142,77 @@ def check_case(case):
     return out, info
 
 
+def literal_pool():
+    a, b = A.const(0), A.const(1)
+    F = (0, 0, 1)
+    pos = [('P', 'Identity', (a, b)), ('P', 'Identity', (b, a)), ('P', 'Identity', (a, a)),
+           ('P', F, (a,)), ('P', F, (b,)), A.atom(0)]
+    return pos + [A.neg(x) for x in pos]
+
+
+def literal_sets(name, tier):
+    """Finite sub-domain where premise order is the only thing that varies: every 2-element (thorough: and 3-element)
+    subset of a pool of literals as the premise set, an unrelated conclusion; checked under every permutation."""
+    from itertools import combinations
+    pool = literal_pool()
+    sizes = (2, 3) if (tier != 'quick' or R.is_classical(name)) else (2,)
+    for r in sizes:
+        for sub in combinations(pool, r):
+            yield list(sub)
+
+
+def check_literal_set(case):
+    from itertools import permutations
+    logic, prem, con = prover.case_args(case)
+    fam = R.base_of(logic) + '*'
+    seen = {}
+    out = []
+    for perm in permutations(range(len(prem))):
+        try:
+            tab = prover.build(logic, [prem[i] for i in perm], con, max_steps=MAX_STEPS, group=True, rank=True, order=0)
+        except Exception as e:
+            out.append((f'C09|raises|{fam}|{type(e).__name__}|{where(e)}', f'{prover.case_str(case)} order {perm}: {e!r}'))
+            continue
+        oc = prover.outcome(tab)
+        if oc != 'limited':
+            seen.setdefault(oc, perm)
+    if len(seen) > 1:
+        out.append((f'C09|verdict-differs|{fam}|premise-order',
+                    f'{prover.case_str(case)}: ' + ' but '.join(f'{oc} with the premises in order {list(p)}' for oc, p in sorted(seen.items()))))
+    return out, seen
+
+
 def shards(tier, seed_):
     n = 48 if tier == 'quick' else 128
     ex = 30 if tier == 'quick' else 250
-    return [dict(seed=seed_, shard=i, examples=ex, norders=3 if tier == 'quick' else 12) for i in range(n)]
+    names = sorted(R.LOGICS)
+    return [dict(literal_sets=names[i::16], tier=tier) for i in range(16)] + \
+        [dict(seed=seed_, shard=i, examples=ex, norders=3 if tier == 'quick' else 12) for i in range(n)]
 
 
 def run_shard(shard, acc):
+    if 'literal_sets' in shard:
+        con = ('P', (0, 0, 1), (A.const(2),))
+        for name in shard['literal_sets']:
+            shown = False
+            for prem in literal_sets(name, shard['tier']):
+                case = prover.mk_case(name, prem, con, max_steps=MAX_STEPS)
+                case['kind'] = 'literal-set'
+                res, seen = check_literal_set(case)
+                acc.case((name, case['premises'], 'literal-set'), nontrivial=bool(seen),
+                         classes=('profile:literal-sets', 'verdict:' + ('mixed' if len(seen) > 1 else next(iter(seen), 'limited'))),
+                         sample=None if shown else prover.case_str(case) + f' => {sorted(seen)} over every premise order')
+                shown = True
+                for fp, d in res:
+                    acc.finding(fp, case, d)
+        return
     @seed(shard['seed'] * 1000 + shard['shard'])
     @settings(max_examples=shard['examples'], database=None, deadline=None, report_multiple_bugs=False,
               phases=[Phase.generate], suppress_health_check=list(HealthCheck))
     @given(st.data())
     def body(data):
-        pname = ('generic', 'modal-heavy', 'quant-heavy', 'valid-biased', 'valid-biased', 'modal-deep')[data.draw(st.integers(0, 5))]
-        pred = {'modal-heavy': R.is_modal, 'modal-deep': R.is_modal, 'quant-heavy': R.is_quantified}.get(pname)
+        pname = ('generic', 'modal-heavy', 'quant-heavy', 'valid-biased', 'valid-biased', 'modal-deep', 'identity-heavy')[data.draw(st.integers(0, 6))]
+        pred = {'modal-heavy': R.is_modal, 'modal-deep': R.is_modal, 'quant-heavy': R.is_quantified, 'identity-heavy': R.is_classical}.get(pname)
         logic = data.draw(gen.logic_name(pred))
         if pname == 'valid-biased':
             prem, con = wrapped_valid(data, logic)
@@ -177,6 +238,8 @@ def run_shard(shard, acc):
 
 
 def replay(case):
+    if case.get('kind') == 'literal-set':
+        return check_literal_set(case)[0]
     return check_case(case)[0]
 
 
